@@ -67,7 +67,7 @@ def run(tier, seed):
     check.coverage["schedule_runs_not_following_the_modelled_protocol"] = unrep
     # 3. code -> spec: recorded concurrent uses validated by Trace_RegexpCache.tla
     wd = common.workdir("C15-trace")
-    common.run([vh, "drive-rexp", "-seed", str(seed), "-n", str(60 if quick else 300), "-rounds", str(14 if quick else 70), "-out", wd], timeout=3600)
+    common.run([vh, "drive-rexp", "-seed", str(seed), "-n", str(120 if quick else 300), "-rounds", str(21 if quick else 70), "-out", wd], timeout=3600)
     meta = json.load(open(os.path.join(wd, "meta.json")))
     cks = schemafam.chunks(wd)
 
